@@ -1,9 +1,9 @@
 SPECIFICATION Spec
 CONSTANTS
   Classes <- Classes4
-  Outs <- OutsC05
-  Durs = {0}
-  Rets <- RetsAll
+  Outs <- OutsC12
+  Durs = {2}
+  Rets <- RetsOne
   Advs <- AdvsExact
   Decs <- DecsAll
   BFaults <- BFaultsNone
@@ -11,11 +11,8 @@ CONSTANTS
   Modes = {"call", "exec"}
   RunGaps <- GapsNone
   NRuns = 1
-  Configs <- ConfigsC05
-  RecordHist = FALSE
+  Configs <- ConfigsC12
+  RecordHist = TRUE
 INVARIANT NoViolation
-INVARIANT AttemptsBounded
-INVARIANT InvokeWithinDeadline
-INVARIANT SleepWithinRemaining
-INVARIANT DeliveriesRelated
+INVARIANT ExportBehaviours
 CHECK_DEADLOCK FALSE
